@@ -6,7 +6,9 @@ Driver for C08. Case line:
 `(prog (dom d₁ … dₙ) (root (h e…) (c k…) <kid>…))` with `<kid> ::= (ref|alt|next (h e…) (c k…) <kid>…)`
 
 `h` = the domain elements for which the block's condition holds, `c` = the classes of the `Add` conclusions
-written in the block, kids in textual order.
+written in the block, kids in textual order. At the top level of `root` two more items may stand between the
+kids (multi-step authoring): `(reenter)` — the `with rule:` block is closed and `with rule:` is opened again —
+and `(here)` — the base rule's `Add` statements are written at this point (default: first).
 
 Output: `model=` builder + evaluator as the code is today (`Quirks.today`), `model_fixed=` all three quirks off,
 `model_q…=` every other quirk setting (a repair of one defect must still correspond), `spec=` the ripple-down
@@ -47,6 +49,35 @@ partial def parseKids (items : List Sexp) (acc : Array Block) : Option (Kids × 
   | _ => none
 end
 
+/-- the top level of `root`: kids, `(reenter)`, `(here)`; blocks numbered in textual order from 1 -/
+partial def parseItems (items : List Sexp) (acc : Array Block) : Option (List Item × Array Block) :=
+  match items with
+  | [] => some ([], acc)
+  | .list [.atom "reenter"] :: rest => do
+    let (r, acc) ← parseItems rest acc
+    pure (Item.reenter :: r, acc)
+  | .list [.atom "here"] :: rest => do
+    let (r, acc) ← parseItems rest acc
+    pure (Item.add :: r, acc)
+  | .list (.atom k :: body) :: rest => do
+    let kd ← parseKind k
+    let (p, acc) ← parseBlock body acc
+    let (r, acc) ← parseItems rest acc
+    pure (Item.kid kd p :: r, acc)
+  | _ => none
+
+def parseRoot (items : List Sexp) : Option (Authored × Array Block) :=
+  match items with
+  | .list (.atom "h" :: hs) :: .list (.atom "c" :: cs) :: rest => do
+    let h ← nats hs
+    let c ← nats cs
+    let (its, acc) ← parseItems rest #[{ cond := h, concl := c }]
+    let nAdd := (its.filter fun i => match i with | .add => true | _ => false).length
+    if nAdd == 0 then pure (⟨0, Item.add :: its⟩, acc)
+    else if nAdd == 1 then pure (⟨0, its⟩, acc)
+    else none
+  | _ => none
+
 def pad (n : Nat) : String := let s := toString n; "".pushn '0' (4 - s.length) ++ s
 
 def showRow (r : List Nat × Nat) : String :=
@@ -70,9 +101,10 @@ def current : Quirks := Quirks.today
 def run (s : Sexp) : String :=
   match s with
   | .list [.atom "prog", .list (.atom "dom" :: ds), .list (.atom "root" :: body)] =>
-    match nats ds, parseBlock body #[] with
-    | some dom, some (p, blocks) =>
+    match nats ds, parseRoot body with
+    | some dom, some (a, blocks) =>
       let pay := Payload.ofList blocks.toList
+      let p := a.toProg
       let others : List Quirks :=
         [true, false].flatMap fun c => [true, false].flatMap fun r =>
           [Dedup.byBinding, .byConclusion, .off].filterMap fun d =>
@@ -80,14 +112,14 @@ def run (s : Sexp) : String :=
             if q = current || q = Quirks.fixed then none else some q
       let alt := others.map fun q =>
         s!"model_q{if q.climbOnce then 1 else 0}{if q.refNoRelink then 1 else 0}{dedupName q.dedup}=" ++
-          showObs (model q pay p dom)
+          showObs (modelA q pay a dom)
       let trig :=
         (if p.trigClimb then ["F-C08-1"] else []) ++
         (if p.trigRef true then ["F-C08-2"] else []) ++
         (if p.trigNextScope pay dom then ["F-C08-3"] else [])
       "\t".intercalate
-        ([ "model=" ++ showObs (model current pay p dom),
-           "model_fixed=" ++ showObs (model Quirks.fixed pay p dom),
+        ([ "model=" ++ showObs (modelA current pay a dom),
+           "model_fixed=" ++ showObs (modelA Quirks.fixed pay a dom),
            "spec=" ++ showRows ((spec pay p dom).map fun (c, x) => ([c], x)),
            "trig=" ++ ",".intercalate trig,
            "unamb=" ++ toString p.unambiguous ] ++ alt)
